@@ -138,6 +138,8 @@ def execute(case):
     vh = lib.hooks_module()
     ltable = make_df(case['L'], case.get('lattr', 's'))
     rtable = make_df(case['R'], case.get('rattr', 's'))
+    if case.get('same_object'):
+        rtable = ltable                              # self-join on one DataFrame object
     tokenizer = make_tokenizer(case['tok'])
     if case.get('default_tok'):
         import inspect
